@@ -852,6 +852,7 @@ class dictable(Dict):
         b  |m     
         e  |m    
         """
+        by = as_tuple(by)
         if len(self) == 0:
             return self.copy()
         elif len(by):
